@@ -82,7 +82,9 @@ impl Float {
         let one = Self::one(sem2, false);
         let mut sum = Self::zero(sem2, false);
         let mut prev = Self::inf(sem2, true);
-        for k in 1..500 {
+        // The k-th term is 2^-k/k: the sum needs about 'precision' terms.
+        let terms = 500.max(sem2.get_precision() as i64 + 8);
+        for k in 1..terms {
             let k2 = Self::from_u64(sem2, 1).scale(k, rm);
             let k = Self::from_u64(sem2, k as u64);
             let kk2 = &Float::mul_with_rm(&k, &k2, rm);
